@@ -243,7 +243,7 @@ func jsonRegex(repo string) (string, error) {
 	}
 	var b strings.Builder
 	b.WriteString("(* GENERATED by vt JsonRegex from pkg/pbutil/output.go -- do not edit *)\n")
-	b.WriteString("From Coq Require Import List String NArith.\nImport ListNotations.\nRequire Import Verif.Codec.JsonClean.\nLocal Open Scope string_scope.\n")
+	b.WriteString("From Coq Require Import List String NArith.\nImport ListNotations.\nRequire Import Verif.Codec.JsonClean Verif.Codec.FileWrite.\nLocal Open Scope string_scope.\n")
 	lit, have := reVars[reName]
 	tree := "(ROther \"no ReplaceAll of a package-level regexp on the marshalled bytes\")"
 	if have {
@@ -273,5 +273,68 @@ func jsonRegex(repo string) (string, error) {
 	}
 	pr("marshal_opts", marshalOpts)
 	pr("compact_opts", compactOpts)
+	// how each file writer opens its path
+	var ws []string
+	for _, name := range []string{"GeneratePBBinaryMessageFile", "JSONPBWithOpt", "TextPBWithOpt"} {
+		mode := "OpenUnknown"
+		n := 0
+		for _, fd := range funcDecls(gf.file) {
+			if fd.Name.Name != name || fd.Recv != nil {
+				continue
+			}
+			ast.Inspect(fd.Body, func(nd ast.Node) bool {
+				c, ok := nd.(*ast.CallExpr)
+				if !ok {
+					return true
+				}
+				ch := selChain(c.Fun)
+				if len(ch) != 2 {
+					return true
+				}
+				switch ch[1] {
+				case "Create":
+					n++
+					if len(c.Args) == 1 {
+						mode = "OpenCreate"
+					}
+				case "OpenFile":
+					n++
+					mode = "OpenUnknown"
+					if len(c.Args) == 3 {
+						mode = "OpenNoTrunc"
+						bad := false
+						ast.Inspect(c.Args[1], func(x ast.Node) bool {
+							switch y := x.(type) {
+							case *ast.SelectorExpr:
+								if y.Sel.Name == "O_TRUNC" {
+									mode = "OpenTruncFlag"
+								}
+							case *ast.BinaryExpr:
+								if y.Op != token.OR {
+									bad = true
+								}
+							case *ast.Ident, nil:
+							default:
+								bad = true
+							}
+							return true
+						})
+						if bad {
+							mode = "OpenUnknown"
+						}
+					}
+				case "Open", "WriteFile":
+					n++
+					mode = "OpenUnknown"
+				}
+				return true
+			})
+		}
+		if n != 1 {
+			mode = "OpenUnknown"
+		}
+		ws = append(ws, "("+c09str(name)+", "+mode+")")
+	}
+	fmt.Fprintf(&b, "Definition file_writers : list (string * open_mode) := [%s].\n", strings.Join(ws, "; "))
 	return b.String(), nil
 }
